@@ -5,7 +5,9 @@ package adversary
 
 import (
 	"crypto/sha256"
+	"hash"
 	"math/big"
+	"sync"
 
 	"github.com/consensys/gnark/constraint/solver"
 	fcs "github.com/consensys/gnark/frontend/cs"
@@ -46,4 +48,21 @@ func FixedMask() solver.Option {
 		}
 		return nil
 	})
+}
+
+// RecordingHash wraps a hash.Hash and records every byte written to it: what a verifier
+// binds into its transcript becomes observable.
+type RecordingHash struct {
+	hash.Hash
+	mu     sync.Mutex
+	Stream []byte
+}
+
+func NewRecordingHash(h hash.Hash) *RecordingHash { return &RecordingHash{Hash: h} }
+
+func (r *RecordingHash) Write(p []byte) (int, error) {
+	r.mu.Lock()
+	r.Stream = append(r.Stream, p...)
+	r.mu.Unlock()
+	return r.Hash.Write(p)
 }
